@@ -60,6 +60,69 @@ class Renderer:
         for name, ds in decls.items():
             if len(ds) == 1 and name not in assigned and not ds[0].get('isref'):
                 self.locals[name] = ds[0]['init']
+        # late-initialised locals: `T x = dflt; { ...; x = e; } ... use(x)` with exactly one assignment that is not
+        # nested in any branch or loop and precedes every use: the use sees e
+        late = self._late_initialised(body, decls)
+        for name, e in late.items():
+            self.locals.setdefault(name, e)
+
+    @staticmethod
+    def _late_initialised(body, decls):
+        if not isinstance(body, dict):
+            return {}
+        order = []          # pre-order event list: ('assign'|'use'|'other-write', name, node, conditional)
+
+        def rec(n, cond):
+            if not isinstance(n, dict):
+                return
+            k = n.get('k')
+            if k == 'assign':
+                t = n.get('lhs')
+                while isinstance(t, dict) and t.get('k') == 'cast':
+                    t = t.get('e')
+                if isinstance(t, dict) and t.get('k') == 'ref' and t.get('dk') == 'local':
+                    rec(n.get('rhs'), cond)
+                    order.append(('assign' if n.get('op') == '=' else 'other', t['name'], n, cond))
+                    return
+            if k == 'un' and n.get('op') in ('++', '--', 'post++', 'post--', '&'):
+                t = n.get('e')
+                if isinstance(t, dict) and t.get('k') == 'ref' and t.get('dk') == 'local':
+                    order.append(('other', t['name'], n, cond))
+                    return
+            if k == 'ref' and n.get('dk') == 'local':
+                order.append(('use', n['name'], n, cond))
+                return
+            if k == 'lambda':
+                for c in n.get('caps', []):
+                    if c.get('name'):
+                        order.append(('other', c['name'], n, cond))
+                return
+            from .astq import children
+            inner = cond or k in ('if', 'for', 'while', 'do', 'switch', 'rangefor', 'cond', 'try') \
+                or (k == 'bin' and n.get('op') in ('&&', '||'))
+            if k == 'if':
+                rec(n.get('cond'), cond)
+                rec(n.get('then'), True)
+                rec(n.get('else'), True)
+                return
+            for c in children(n):
+                rec(c, inner)
+        rec(body, False)
+        out = {}
+        byname = {}
+        for ev in order:
+            byname.setdefault(ev[1], []).append(ev)
+        for name, evs in byname.items():
+            if name not in decls or len(decls[name]) != 1 or decls[name][0].get('isref'):
+                continue
+            asg = [e for e in evs if e[0] == 'assign']
+            if len(asg) != 1 or any(e[0] == 'other' for e in evs) or asg[0][3]:
+                continue
+            i = evs.index(asg[0])
+            if any(e[0] == 'use' for e in evs[:i]):
+                continue
+            out[name] = asg[0][2].get('rhs')
+        return out
 
     def r(self, e, depth=0):
         if e is None:
@@ -126,6 +189,11 @@ class Renderer:
                     else:
                         ops.append(self.r(x, depth + 1))
                 gather(e)
+                neutral = {'+': '0', '|': '0', '^': '0', '*': '1'}.get(op)
+                if neutral is not None and len(ops) > 1:
+                    ops = [o for o in ops if o != neutral] or [neutral]
+                if len(ops) == 1:
+                    return ops[0]
                 return '(%s %s)' % (op, ' '.join(sorted(ops)))
             l = self.r(e.get('lhs'), depth + 1)
             rr = self.r(e.get('rhs'), depth + 1)
